@@ -112,11 +112,12 @@ def run(tier):
     intervals = [6, 12, 20, 22, 24, 36, 48]   # a day or more is legal too (and exercises whole-day arithmetic)
     per_lib = {"pytz": 0, "dateutil": 0}
     for lib, z, y, ts in tgt:
-        if per_lib[lib] >= (15 if q else 200):
+        if per_lib[lib] >= (30 if q else 200):
             continue
         # choose (start, interval) so that the change falls into the *last, partial* sampling cell of the range
         hi = int(dt.datetime(y + 1, 1, 1, tzinfo=UTC).timestamp())
         picked = 0
+        picked_partial = 0
         for sy in (y - 2, y - 1, y, y - 3):
             if sy < 2000:
                 continue
@@ -124,9 +125,16 @@ def run(tier):
             for iv in intervals:
                 step = iv * 3600
                 last_grid = lo + ((hi - lo - 1) // step) * step
-                if last_grid < ts < hi and picked < 2:
-                    configs.append({"lib": lib, "zone": z, "start": sy, "until": y + 1, "interval": iv})
-                    picked += 1
+                partial = (hi - lo) % step != 0          # the last cell is shorter than the sampling interval
+                if last_grid < ts < hi:
+                    # two ranges whose last cell is a full interval and two whose last cell is a partial one
+                    if partial and picked_partial < 2:
+                        configs.append({"lib": lib, "zone": z, "start": sy, "until": y + 1, "interval": iv})
+                        picked_partial += 1
+                    elif not partial and picked < 2:
+                        configs.append({"lib": lib, "zone": z, "start": sy, "until": y + 1, "interval": iv})
+                        picked += 1
+        picked += picked_partial
         if picked:
             per_lib[lib] += 1
     lattice = [(2000, 2010), (2005, 2020), (2010, 2011), (2020, 2037), (2001, 2002)]
